@@ -97,6 +97,24 @@ def oracle_grad(case):
         if not np.isfinite(sc) or abs(sc - ref) > tol:
             raise Violation(f"{label}: score {sc!r} is not the {base} {'OvO' if ovo else 'OvA'} GEMINI of predict_proba "
                             f"on the given data ({ref!r})")
+    # score on other data than the training data: a row subset (with the matching sub-block of a precomputed affinity)
+    if s["cls"] not in E.CATEGORICAL and n >= 3:
+        rs = np.random.RandomState(s["random_state"] + 11)
+        idx = np.sort(rs.choice(n, size=rs.randint(2, n), replace=False))
+        Xs = np.ascontiguousarray(np.asarray(X)[idx])
+        ys = None if y is None else np.ascontiguousarray(np.asarray(y)[idx][:, idx])
+        sc2 = call(label, "score on a row subset", est.score, Xs, ys) if ys is not None else call(label, "score on a row subset", est.score, Xs)
+        P2 = np.clip(np.asarray(call(label, "predict_proba on a row subset", est.predict_proba, Xs)), 1e-12, 1 - 1e-12)
+        A2 = ys if ys is not None else aff(Xs)
+        if A2 is not None:
+            A2 = np.ascontiguousarray(A2, dtype=np.float64)
+        if base != "wasserstein" or len(idx) <= 8:
+            ref2 = R.gemini(base, ovo, P2, A2)
+            tol2 = R.score_tol(base, A2, ref2)
+            if case["dtype"] == "float32":
+                tol2 = max(tol2, (2e-3 if base == "mmd" else 1e-5) * max(R.natural_scale(base, A2), abs(ref2)))
+            if not np.isfinite(sc2) or abs(sc2 - ref2) > tol2:
+                raise Violation(f"{label}: score on rows {idx.tolist()} is {sc2!r}, the {base} GEMINI of predict_proba on those rows is {ref2!r}")
     if getattr(est, "n_iter_", None) != s["max_iter"]:
         raise Violation(f"{label}: n_iter_ = {getattr(est, 'n_iter_', None)!r}, expected max_iter = {s['max_iter']}")
     want = SGDOptimizer if s["solver"] == "sgd" else AdamOptimizer
